@@ -2,7 +2,7 @@
 
 World of C01 plus terminate()/close()/peer-EOF events at chosen scheduler positions; safety
 obligations on the wire (independent decoder) and on the signals, bounded liveness at quiescence. '''
-from vf.engine import cur
+from vf.engine import cur, blen
 from vf.oracle import rfc9174
 from checks.tcpcl_common import *
 
@@ -39,6 +39,9 @@ def cases(tier):
     for (na, nb) in ((2, 0), (1, 1)):
         for ev in ('termA', 'termB', 'termAB'):
             out.append(dict(na=na, nb=nb, kseg=2, ev=ev, dev=0, rx='msg'))
+    # the peer's KEEPALIVE travels right behind its SESS_TERM (both in one read)
+    for (na, nb) in ((0, 0), (1, 0), (1, 1)):
+        out.append(dict(na=na, nb=nb, kseg=2, ev='termA', dev=0, ka=1))
     if tier == 'thorough':
         out.append(dict(na=1, nb=1, kseg=2, ev='termA', dev=1))
         out.append(dict(na=1, nb=1, kseg=2, ev='termAB', dev=1))
@@ -64,9 +67,12 @@ def harness(case, tier):
     w.run(600, choose_budget=case['dev'], until=lambda: w.steps - start >= when)
     midflight = not (w.a.is_sess_idle() and w.b.is_sess_idle())
 
+    # the reason code is the caller's (D-Bus type y): assigned, unassigned and private-use values
+    reason = [0, 3, 6, 0xF0][c.choose(4, 'reason')] if ev in ('termA', 'termAB') else 0
+
     def term(h):
         if h._in_sess and not h._in_term:
-            h.terminate(0)
+            h.terminate(reason)
             return True
         return False
 
@@ -80,6 +86,18 @@ def harness(case, tier):
         st2 = w.steps
         w.run(600, until=lambda: w.steps - st2 >= gap)
         did.append(('B', term(w.b)))
+    if case.get('ka'):
+        # run until B's SESS_TERM is on its way to A, then put a KEEPALIVE of B behind it
+        def term_in_flight():
+            if bool(blen(w.ba.buf) == 0):
+                return False
+            ms, _r = rfc9174.decode_stream(w.ba.total)
+            return any(m['kind'] == 'SESS_TERM' for m in ms)
+        w.run(900, until=term_in_flight)
+        if term_in_flight():
+            ka = rfc9174.encode(dict(kind='KEEPALIVE'))
+            w.ba.buf = w.ba.buf + ka
+            w.ba.total = w.ba.total + ka
     if ev == 'closeA':
         w.a.close()
     if ev == 'eofA':
